@@ -31,7 +31,7 @@ ASSUMPTIONS = ["frames are built by vp.ref.codec.ubx_frame (independent Fletcher
 def floors(tier):
     return {"accepted": 2000, "kind=exact": 300, "kind=short": 200, "kind=long": 200,
             "kind=empty": 200, "kind=random": 200, "id=undoc-id": 100, "id=unknown-class": 100,
-            "mode=SETPOLL": 300, "len>=256": 10, "after-checksum-twin": 300}
+            "mode=SETPOLL": 300, "len>=256": 10, "after-checksum-twin": 300, "cfgval-items": 60}
 
 
 def plan(tier, seed):
@@ -74,6 +74,13 @@ def run_shard(spec, ctx, acc):
             )
             core.hyp_search(acc, strat, check, seed=core.derive(ctx["seed"], PROP, t.label),
                             max_examples=n, known=known, rounds=2)
+            if t.is_cfgval():
+                # key/value messages: conforming lists of up to 100 items
+                cv = st.builds(lambda p, mode, bf: dict(_mk(t.clsid, p, mode, bf, "exact", "defined"), cfgval=True),
+                               frames.cfgval_payload(t.mode), st.sampled_from([t.mode, t.mode, 3]),
+                               st.sampled_from([0, 1]))
+                core.hyp_search(acc, cv, check, seed=core.derive(ctx["seed"], PROP, "cfgval", t.label),
+                                max_examples=40 if tier == "quick" else 600, known=known, rounds=2)
             twin = st.builds(
                 lambda pk, mode, bf, i, d: dict(_mk(t.clsid, pk[1], mode, bf, pk[0], "defined"), kind="twin", i=i, d=d),
                 frames.payload_for(t, kind="exact", max_payload=maxp).filter(lambda pk: len(pk[1]) >= 3),
@@ -128,7 +135,7 @@ def check(case) -> core.Out:
         # history: a frame with the same class, ID, length and checksum but a
         # different payload is parsed immediately before the frame under test
         first = codec.ubx_frame(clsid[0:1], clsid[1:2], payload)
-        payload = twin_payload(payload, case["i"] % (len(payload) - 2), 1 + case["d"] % 255)
+        payload = codec.fletcher_twin(payload, case["i"], case["d"])
         try:
             pyubx2.UBXReader.parse(first, msgmode=mode, parsebitfield=bf)
         except Exception:  # noqa
@@ -138,6 +145,8 @@ def check(case) -> core.Out:
                f"bf={bf}", f"validate={case.get('validate', 1)}"]
     if case.get("kind") == "twin":
         classes.append("after-checksum-twin")
+    if case.get("cfgval"):
+        classes.append("cfgval-items")
     if len(payload) >= 256:
         classes.append("len>=256")
     out = core.Out(classes=classes, dig=core.digest((frame, mode, bf)))
